@@ -5,7 +5,7 @@ From HyV Require Export State.EvalRestoreSymex Gen.StateEvalTerm.
 
 (* hy_eval stays opaque: what evaluation does is the oracle's business *)
 Definition user_prog : prog :=
-  {| pfuns := [("hy_eval_user", hy_eval_user_def)]; pmro := []; pvars := [] |}.
+  {| pfuns := [("hy_eval_user", hy_eval_user_def)]; pmro := []; pvars := []; pmatch := table_match [] |}.
 
 Definition hy : val := VStr "hy".
 
